@@ -144,7 +144,12 @@ def _through_reader(res, rng, n, family="reader_after_damaged"):
             bad[e + 1:e + 5] = bytes(rng.choice([0xFF, 0x80, 0xE9, 0x41]) for _ in range(rng.choice([1, 4, 6])))
         else:
             bad[e + 1:e + 5] = b"%04X" % ((P.crc16(bytes(bad[:e + 1])) + rng.choice([1, 0x100, 0x8000])) & 0xFFFF)
-        was_right = bytes(bad[e + 1:e + 5]).upper() == b"%04X" % P.crc16(bytes(bad[:e + 1]))
+        # "damaged" = the text after '!' does not denote the CRC any more. It may still do so after the replacement
+        # (" DEB" for 0DEB, "0xEB" for 00EB: int(text, 16) accepts blanks, a 0x prefix, underscores - see int16_grammar)
+        try:
+            was_right = int(bytes(bad[e + 1:]).decode("ascii").strip(), 16) == P.crc16(bytes(bad[:e + 1]))
+        except ValueError:
+            was_right = not bytes(bad[e + 1:]).strip()
         goods = [P.gen_readout(rng, with_crc=True) for _ in range(rng.choice([1, 2, 3]))]
         data = bytes(bad) + b"".join(goods)
         cuts = sorted(rng.sample(range(1, len(data)), min(len(data) - 1, rng.choice([0, 1, 2, 5, 20]))))
